@@ -26,6 +26,8 @@ MINIMUMS = {"quick": {"paths_judged": 3000, "paths_with_special_bytes": 500, "du
 WALL_CAP = {"quick": 170, "thorough": 3000}
 
 NAMES = ["a", "é", "☃", os.fsdecode(b"\xff\xfe.txt"), os.fsdecode(b"\xfd")]
+# names that mean something to globbing, regexes, shells and line-oriented code; a name of 200 bytes
+NAMES_ODD = ["a", "*[b]?", "n\nl", " ", "x" * 200, "é"]
 BIAS = {"rename_dir": 6, "move_in": 4, "mkdir": 3, "makedirs": 2, "create": 3, "write": 2, "chmod": 1, "unlink": 1.5, "rename_file": 3,
         "rmdir": 1, "rmtree": 1, "move_out": 1.5, "rename_replace": 1}
 
@@ -62,7 +64,7 @@ def make_cfg(r, seed, observer):
     cfg = {
         "seed": seed, "n_ops": r.randint(8, 22), "recursive": r.random() < 0.85, "full": observer == "inotify" and r.random() < 0.25,
         "bytes": False, "spelling": r.choice(["abs", "rel", "slash", "path", "relpath", "dot", "dotdot"]), "mode": r.choice(["plain", "plain", "small"]) if observer == "inotify" else "plain",
-        "delay": 0.1, "probe_p": 0.0, "final_probes": False, "n_root": r.randint(2, 6), "n_out": r.randint(2, 4), "names": NAMES, "bias": BIAS,
+        "delay": 0.1, "probe_p": 0.0, "final_probes": False, "n_root": r.randint(2, 6), "n_out": r.randint(2, 4), "names": NAMES if r.random() < 0.7 else NAMES_ODD, "bias": BIAS,
         "observer": observer,
     }
     cfg["read_size"] = 300 if cfg["mode"] == "small" else None
